@@ -67,9 +67,10 @@ def compare(programs, stats=None):
     bad = []
     for i, (q, r) in enumerate(zip(programs, res)):
         if stats is not None:
-            key = r if on_guard(q) or r in ("outside", "notaprogram") else r + " [off guard]"
-            stats[key] = stats.get(key, 0) + 1
-        if r.startswith("!") or "flat=diff" in r or "fails=diff" in r or ("sem=diff" in r and on_guard(q)):
+            stats[r] = stats.get(r, 0) + 1
+        # the theorem T2c_plain_sem_eqv: inside the (Coq-evaluated) guard the two normal forms are sem_eqv;
+        # the created flat record equals the real one everywhere in the fragment
+        if r.startswith("!") or "flat=diff" in r or "fails=diff" in r or ("sem=diff" in r and r.startswith("guard=true")):
             bad.append((i, r))
     return bad
 
@@ -118,19 +119,13 @@ def main(argv):
     tally = {}
     examples = {}
     for q, r in zip(progs, res):
-        blk = q["blocks"][0]
-        cmap = {c["id"]: c for c in q["constraints"]}
-        crossed_exclude = any(cmap[c]["kind"] == "Exclude" and cmap[c]["level"][0] in blk.get("crossing", [])
-                              for c in blk.get("constraints", []))
-        if blk.get("rcc", True) and crossed_exclude:
-            r = r + "   [rcc with an excluded crossed level]"
         tally[r] = tally.get(r, 0) + 1
         examples.setdefault(r, q)
     print("programs: %d" % len(progs))
     for k in sorted(tally, key=lambda k: -tally[k]):
         print("%6d  %s" % (tally[k], k))
     for k in sorted(tally):
-        if ("diff" in k and "[rcc" not in k) or k.startswith("!") or "FArith" in k:
+        if ("diff" in k and k.startswith("guard=true")) or k.startswith("!"):
             print("--- %s\n%s" % (k, examples[k]))
     return 0
 
